@@ -148,7 +148,8 @@ def check_C10(tier, seed):
     import universe
     rnd = universe.semantic_universe(tier, seed + 1000)
     for x in rnd: x["cls"] = dict(x.get("cls") or {}, family="valid_" + str((x.get("cls") or {}).get("family", "random")))
-    insts = universe.renumber(insts + rnd)
+    mut = universe.mutated_universe(tier, seed + 1000)
+    insts = universe.renumber(insts + rnd + mut)
     obs = observe(insts, wd, "", seed)
     classes = {}; drift = 0; kinds = set()
     for inst, o in zip(insts, obs):
@@ -170,11 +171,26 @@ def check_C10(tier, seed):
                 drift += 1
                 if drift <= 3: res.drift.append(f"DirectiveFSM predicts {cls['predicted']} for {cls['seq']} at {cls['pos']}, frontend says {c.get('dbg', c['t'])[:80]}")
         if c["t"] != "ok" and len(res.cov["samples"]) < 5 and cls["family"] != "dirseq": res.sample({"document": inst["text"][:160], "outcome": c.get("dbg", "")[:100]})
+    # the frontend-validity model: spec/Frontend.tla predicts, from the source AST alone, acceptance or the set of error kinds
+    from props_engine import judge
+    mo = [(i, o) for i, o in zip(insts, obs) if str(i["cls"]["family"]) == "mutated" or str(i["cls"]["family"]).startswith("valid_")]
+    ji = [{k: i[k] for k in ("id", "schema", "q", "args")} for i, _ in mo]
+    jo = [{"id": i["id"], "t": o["compile"]["t"], "kinds": o["compile"].get("kinds", [])} for i, o in mo]
+    fv = judge(res, "JudgeFrontend", ji, jo, wd, "fe")
+    fe = {"accept": 0, "reject": 0, "skip": 0, "bad": 0}; fekinds = {}
+    for inst, o in mo:
+        v = fv[inst["id"]]
+        for k in set(o["compile"].get("kinds", [])): fekinds[k] = fekinds.get(k, 0) + 1
+        for c in v: fe[c.split(".")[1]] += 1
+        if "fe.bad" in v and o["compile"]["t"] != "panic":
+            d = json.loads(tla_unquote(v["fe.bad"]))
+            res.drift.append(f"Frontend.tla predicts {sorted(d['want']) or 'acceptance'}, the frontend answered {sorted(d['got']) or 'acceptance'} for {inst['text'][:300]!r}")
+    res.notes.update({"frontend_model": fe, "frontend_error_kinds_seen": fekinds})
     res.cov["evaluations"] = len(insts)
     res.cov["distinct_nontrivial"] = sum(1 for k in classes)
     res.cov["rule"] = (f"every directive sequence of length <= {3 if tier == 'quick' else 4} that spec/DirectiveFSM.tla reaches (TLC enumerates the automaton and checks its invariants), rendered on an edge field, a property field and the root field; "
                        f"{len(docfam.MALFORMED)} malformed single directives at two positions; {len(docfam.SHAPES)} document shapes (operations, fragments, variable definitions, root selections, inline fragments, aliases, unterminated text); "
-                       f"{len(docfam.PARAMS)} edge-parameter literals at three positions; {len(rnd)} well-formed queries of the semantic universe (random with shared variables, recursion / tag / hint / fold families); each parsed by the real frontend under catch_unwind. distinct non-trivial = distinct (family, outcome kind) classes observed")
+                       f"{len(docfam.PARAMS)} edge-parameter literals at three positions; {len(rnd)} well-formed queries of the semantic universe (random with shared variables, recursion / tag / hint / fold families); and the same number of near-valid mutated queries (gen/badq.py: 24 targeted mutations); each parsed by the real frontend under catch_unwind. For the random and mutated queries spec/Frontend.tla (a phase-by-phase model of validation.rs / mod.rs / filters.rs / tags.rs) predicts acceptance or the exact set of error kinds, judged by TLC (JudgeFrontend; a disagreement that is not a panic is reported as model drift, not as a violation of this property). distinct non-trivial = distinct (family, outcome kind) classes observed")
     res.notes.update({"sequences": len(seqs), "outcome_classes": classes, "fsm_mismatches": drift})
     res.assumptions += ["below GraphQL token level (arbitrary bytes) is async-graphql-parser's territory and not enumerated"]
     return res
